@@ -327,8 +327,9 @@ def check_comprehension_shadow(run: Run, ctx: TermCtx, m, cls: ClassInfo, rule: 
     for h in {id(v): v for v in handlers.values()}.values():
         nodep = ("param", h.pos_params[1])
         evs = call_events(ctx, h, lambda n: n in ("append", "pop", "visit", "generic_visit"))
-        pushes = [e for e in evs if e.name == "append" and e.args]
-        pops = [e for e in evs if e.name == "pop"]
+        selfp_ = ("param", h.pos_params[0])
+        pushes = [e for e in evs if e.name == "append" and e.args and e.recv is not None and root_of(e.recv) == selfp_]  # the frame stack, not a local list
+        pops = [e for e in evs if e.name == "pop" and e.recv is not None and root_of(e.recv) == selfp_]
         ok_t = False
         for c in pushes:
             t = c.args[0]
